@@ -1,6 +1,7 @@
 """Display and repr logic for Vector and Table."""
 
 from __future__ import annotations
+import math
 from datetime import date
 from typing import List
 from .naming import _get_reserved_names
@@ -89,7 +90,8 @@ def _format_column(col, max_preview: int | None = None) -> List[str]:
 		elif v is None:
 			out.append('None')
 		elif col._dtype and col._dtype.kind is float:
-			out.append(f"{v:.1f}" if v == int(v) else f"{v:g}")
+			# NaN and infinities have no integer value
+			out.append(f"{v:.1f}" if (math.isfinite(v) and v == int(v)) else f"{v:g}")
 		elif col._dtype and col._dtype.kind is int:
 			out.append(str(v))
 		elif col._dtype and col._dtype.kind is date:
